@@ -4,6 +4,7 @@ package main
 // (field elements in the algebra model, inert environment, sync/atomic).
 
 import (
+	"math"
 	"fmt"
 	"go/types"
 	"math/big"
@@ -434,6 +435,27 @@ func findStub(in *Interp, fn *ssa.Function) StubFn {
 		if name == "GetHintName" {
 			return func(in *Interp, fn *ssa.Function, a []Val) Val { return "<hint>" }
 		}
+	case "math":
+		switch name {
+		case "Ceil", "Floor", "Sqrt", "Log2", "Trunc":
+			return func(in *Interp, fn *ssa.Function, a []Val) Val {
+				x, ok := a[0].(float64)
+				if !ok {
+					panic(abort("unmodelled", "math."+name+" of a symbolic float"))
+				}
+				switch name {
+				case "Ceil":
+					return math.Ceil(x)
+				case "Floor":
+					return math.Floor(x)
+				case "Sqrt":
+					return math.Sqrt(x)
+				case "Log2":
+					return math.Log2(x)
+				}
+				return math.Trunc(x)
+			}
+		}
 	case "sort":
 		if (name == "Slice" || name == "SliceStable") && fn.Signature.Recv() == nil {
 			// insertion sort driven by the caller's less closure (forks on symbolic comparisons);
@@ -505,6 +527,11 @@ func findStub(in *Interp, fn *ssa.Function) StubFn {
 		}
 	case "sync":
 		if rn := recvNamed(fn); rn != nil {
+			if in.sched != nil {
+				if st := schedSyncStub(rn.Obj().Name() + "." + name); st != nil {
+					return st
+				}
+			}
 			switch rn.Obj().Name() + "." + name {
 			case "Mutex.Lock", "Mutex.Unlock", "RWMutex.Lock", "RWMutex.Unlock", "RWMutex.RLock", "RWMutex.RUnlock",
 				"WaitGroup.Add", "WaitGroup.Done", "WaitGroup.Wait":
